@@ -67,6 +67,12 @@ TStep ==
               (IF K1Applies(tr, i) /\ tr.got[i] # Expected(tr, i)
                THEN TrKnown(tr, "C12_K1_nonstandard_calendar")
                ELSE Chk(tr, i, "decoded instant " \o ToString(i) \o " (" \o tr.kind \o ")", tr.got[i], Expected(tr, i)))
+       \* the numpy form (datetype = datetime64): the same instants, in UTC
+       /\ (~NonStdCal(tr) => ChkT(tr, 1, "getTimes(datetype=datetime64) raised on a file whose getTimes() returned: " \o tr.dt64.exc, tr.dt64.exc = ""))
+       /\ ((tr.dt64.h /\ ~NonStdCal(tr)) =>
+             /\ ChkT(tr, 1, "datetime64 form: number of times", Len(tr.dt64.got) = NExpected(tr))
+             /\ \A i \in 1..NExpected(tr) :
+                  Showable(Expected(tr, i)) => Chk(tr, i, "datetime64 form of instant " \o ToString(i), tr.dt64.got[i], Expected(tr, i)))
        \* bounds=True : n+1 edges, the last one step after the last instant
        /\ ChkT(tr, 1, "getTimes(bounds=True) raised on a file whose getTimes() returned: " \o tr.bounds.exc, tr.bounds.exc = "")
        /\ (tr.bounds.h =>
